@@ -91,7 +91,8 @@ Inductive node :=
 | NLiquid (t : token) (block : node)
 | WBlock (t : token) (nodes : list node)          (* ast.BlockNode *)
 | WCond (t : token) (e : expr) (block : node)     (* ast.ConditionalBlockNode *)
-| WMulti (t : token) (e : expr) (block : node).   (* case_tag.MultiExpressionBlockNode *)
+| WMulti (t : token) (e : expr) (block : node)    (* case_tag.MultiExpressionBlockNode *)
+| NTablerow (t : token) (loop : expr) (block : node).   (* shopify/tags/tablerow_tag.TablerowNode *)
 
 Definition n_token (n : node) : token :=
   match n with
@@ -99,7 +100,7 @@ Definition n_token (n : node) : token :=
   | NCapture t _ _ | NIf t _ _ _ _ | NUnless t _ _ _ _ | NCase t _ _ _ | NFor t _ _ _
   | NWith t _ _ | NIncrement t _ | NDecrement t _ | NCycle t _ | NMacro t _ _ _
   | NCall t _ _ _ | NInclude t _ _ _ _ _ | NRender t _ _ _ _ _ | NExtends t _
-  | NBlock t _ _ _ | NLiquid t _ | WBlock t _ | WCond t _ _ | WMulti t _ _ => t
+  | NBlock t _ _ _ | NLiquid t _ | WBlock t _ | WCond t _ _ | WMulti t _ _ | NTablerow t _ _ => t
   end.
 
 (** isinstance(node, (BlockNode, ConditionalBlockNode, MultiExpressionBlockNode)) *)
@@ -169,7 +170,7 @@ Definition n_expressions (n : node) : list expr :=
   | NOutput _ e | NEcho _ e | NAssign _ _ e => [e]
   | NIf _ c _ _ _ | NUnless _ c _ _ _ => [c]
   | NCase _ e _ _ => [e]
-  | NFor _ l _ _ => [l]
+  | NFor _ l _ _ | NTablerow _ l _ => [l]
   | NWith _ args _ => kw_values args
   | NCycle _ items => items
   | NMacro _ _ ps _ => flat_map (fun p => opt_list (snd p)) ps      (* defaults that exist *)
@@ -189,6 +190,7 @@ Definition n_template_scope (n : node) : list ident :=
 
 Definition forloop_s : str := [102;111;114;108;111;111;112]%N.     (* "forloop" *)
 Definition block_s : str := [98;108;111;99;107]%N.                 (* "block" *)
+Definition tablerowloop_s : str := [116;97;98;108;101;114;111;119;108;111;111;112]%N.   (* "tablerowloop" *)
 Definition raw_s : str := [114;97;119]%N.                          (* "raw" *)
 Definition super_s : str := [115;117;112;101;114]%N.               (* "super" *)
 Definition first_s : str := [102;105;114;115;116]%N.               (* "first" *)
@@ -199,6 +201,7 @@ Definition include_s : str := [105;110;99;108;117;100;101]%N.      (* "include" 
 Definition n_block_scope (n : node) : list str :=
   match n with
   | NFor _ (ELoop id _ _ _ _) _ _ => [id; forloop_s]                (* for_tag.py:160 *)
+  | NTablerow _ (ELoop id _ _ _ _) _ => [id; tablerowloop_s]        (* tablerow_tag.py block_scope *)
   | NWith _ args _ => map fst args                                  (* with_tag.py:78 *)
   | NMacro _ _ ps _ => map fst ps                                   (* macro_tag.py:100 *)
   | NBlock _ _ _ _ => [block_s]                                     (* extends_tag.py:286 *)
@@ -227,7 +230,7 @@ Definition n_partial_scope (n : node) : option (str * pscope * list str) :=
 Definition n_kids (n : node) : list node :=
   match n with
   | NCapture _ _ b | NWith _ _ b | NMacro _ _ _ b | NBlock _ _ _ b | NLiquid _ b
-  | WCond _ _ b | WMulti _ _ b => [b]
+  | WCond _ _ b | WMulti _ _ b | NTablerow _ _ b => [b]
   | NIf _ _ c alts d | NUnless _ _ c alts d => c :: alts ++ opt_list d
   | NCase _ _ whens d => whens ++ opt_list d
   | NFor _ _ b d => b :: opt_list d
@@ -437,7 +440,7 @@ Section Visit.
     match fuel with
     | O => OutOfFuel
     | S f =>
-        let s1 := match tn with [] => s | _ => add_seen tn s end in
+        let s1 := s in   (* (the root name is put into `seen` once, before the traversal) *)
         let tags := node_tags tn n in
         do ex <- mapM_app (fun e =>
                     do a <- av f tn e (cur_stack c s1) ;;
@@ -470,12 +473,15 @@ Section Visit.
         end
     end.
 
-  Definition init_vstate := {| seen := []; rootstk := [[]] |}.
+  (** seen = {root_name} (if not empty); root_name = str(template.path) if the template
+      has a path, else template.name: the name partial tags load the root template by *)
+  Definition init_vstate (name : str) :=
+    {| seen := match name with [] => [] | _ => [name] end; rootstk := [[]] |}.
 
-  (** for node in template.nodes: _visit(node, template.name, root_scope) *)
+  (** for node in template.nodes: _visit(node, root_name, root_scope) *)
   Definition analyze_contribs (fuel : nat) (name : str) (nodes : list node)
     : res (vstate * list contrib) :=
-    do r <- fold_visit (fun x c s => visit fuel x name c s) nodes None init_vstate ;;
+    do r <- fold_visit (fun x c s => visit fuel x name c s) nodes None (init_vstate name) ;;
     let '(_, s, cs) := r in Ok (s, cs).
 
   Definition analyze_gen (fuel : nat) (name : str) (nodes : list node) : res analysis :=
@@ -990,6 +996,13 @@ Section Interp.
         | NLiquid _ b => rn b
         | WBlock _ ns => forM ns rn
         | WCond _ e b | WMulti _ e b => mdo bb <- eval f e ;;; if bb then rn b else ret tt
+        | NTablerow _ l blk =>
+            (* expression.evaluate (iterable, limit, offset), then cols, then the rows *)
+            ev l >>> mdo k <- pop ;;;
+            (match l with ELoop _ _ _ _ cols => forM (opt_list cols) ev | _ => ret tt end) >>>
+            upd (push_layer (plain (n_block_scope n))) >>>
+            repeatM (N.to_nat k) (rn blk) >>>
+            upd pop_layer
         end
     end.
 
@@ -1058,11 +1071,10 @@ Definition segs_subset (a b : list (list segv)) : bool :=
 Definition segs_seteq (a b : list (list segv)) : bool := segs_subset a b && segs_subset b a.
 
 (** Checks evaluated by the correspondence runner on a reified program [L]
-    (entry point: the template named "main"). *)
-Definition main_s : str := [109;97;105;110]%N.
+    (entry point: the template named [main_s]). *)
 Definition run_fuel : nat := 64.
 
-Definition chk_static (L : list (str * list node)) (incl : bool) (exp expa : res analysis) : bool :=
+Definition chk_static (L : list (str * list node)) (main_s : str) (incl : bool) (exp expa : res analysis) : bool :=
   match assoc main_s L with
   | Some nodes =>
       res_eqb_nopos analysis_eqb (analyze (loader_of L) incl run_fuel main_s nodes) exp
@@ -1071,7 +1083,7 @@ Definition chk_static (L : list (str * list node)) (incl : bool) (exp expa : res
   | None => false
   end.
 
-Definition chk_helpers (L : list (str * list node)) (vars globs filters tags : list str)
+Definition chk_helpers (L : list (str * list node)) (main_s : str) (vars globs filters tags : list str)
   (segs gsegs : list (list segv)) : bool :=
   match assoc main_s L with
   | Some nodes =>
@@ -1088,7 +1100,7 @@ Definition chk_helpers (L : list (str * list node)) (vars globs filters tags : l
   | None => false
   end.
 
-Definition chk_trace (L : list (str * list node)) (reads : str -> list str)
+Definition chk_trace (L : list (str * list node)) (main_s : str) (reads : str -> list str)
   (oracle : list N) (exp : list event) : bool :=
   match assoc main_s L with
   | Some nodes =>
@@ -1100,7 +1112,7 @@ Definition chk_trace (L : list (str * list node)) (reads : str -> list str)
 
 (** A render that the engine aborted with a LiquidError the model knows
     (DisabledTagError, RequiredBlockError, TemplateInheritanceError ...). *)
-Definition chk_trace_err (L : list (str * list node)) (reads : str -> list str)
+Definition chk_trace_err (L : list (str * list node)) (main_s : str) (reads : str -> list str)
   (oracle : list N) (exp : list event) (cls : lclass) : bool :=
   match assoc main_s L with
   | Some nodes =>
@@ -1111,7 +1123,7 @@ Definition chk_trace_err (L : list (str * list node)) (reads : str -> list str)
   | None => false
   end.
 
-Definition model_trace (L : list (str * list node)) (reads : str -> list str) (oracle : list N) :=
+Definition model_trace (L : list (str * list node)) (main_s : str) (reads : str -> list str) (oracle : list N) :=
   match assoc main_s L with
   | Some nodes => let r := run (loader_of L) reads run_fuel main_s nodes oracle in
                   (fst (fst r), snd r, orc (snd (fst r)))
